@@ -274,7 +274,49 @@ TARGETS = [
     ("ic/_sine_waves_1d.py", "RandomSineWaves1d", "__init__", "random_sine_raises", "(D : Z) (offset_zero std_one max_one : bool)",
      {"num_spatial_dims": ("D", "Z"), "offset_range": ("offset_zero", "float0"), "std_one": ("std_one", "bool"), "max_one": ("max_one", "bool")}),
     ("_utils.py", None, "stack_sub_trajectories", "stack_sub_raises", "(sub_len : Z) (lens : list Z)", None),
+    # ---- C18: initial-condition generators
+    ("ic/_discontinuities.py", "Discontinuities", "__init__", "discontinuities_raises", "(zero_mean std_one max_one : bool)",
+     {"zero_mean": ("zero_mean", "bool"), "std_one": ("std_one", "bool"), "max_one": ("max_one", "bool")}),
+    ("ic/_discontinuities.py", "RandomDiscontinuities", "__init__", "random_discontinuities_raises", "(zero_mean std_one max_one : bool)",
+     {"zero_mean": ("zero_mean", "bool"), "std_one": ("std_one", "bool"), "max_one": ("max_one", "bool")}),
+    ("ic/_sine_waves_1d.py", "SineWaves1d", "__init__", "sine_waves_raises", "(offset_zero std_one max_one : bool) (n_amp n_wav n_pha : Z)",
+     {"offset": ("offset_zero", "float0"), "std_one": ("std_one", "bool"), "max_one": ("max_one", "bool"),
+      "amplitudes": ("(repeat 0%Z (Z.to_nat n_amp))", "len"), "wavenumbers": ("(repeat 0%Z (Z.to_nat n_wav))", "len"),
+      "phases": ("(repeat 0%Z (Z.to_nat n_pha))", "len")}),
+    ("ic/_sine_waves_1d.py", "SineWaves1d", "__call__", "sine_waves_call_raises", "(std_one max_one : bool) (x : list Z)",
+     {"x": ("x", "array"), "self.std_one": ("std_one", "bool"), "self.max_one": ("max_one", "bool")}),
+    ("ic/_gaussian_blob.py", "GaussianBlob", "__call__", "gaussian_blob_call_raises", "(one_complement : bool) (pos_len : Z) (x : list Z)",
+     {"x": ("x", "array"), "self.position.shape[0]": ("pos_len", "Z"), "self.one_complement": ("one_complement", "bool")}),
+    # constructors that delegate to validate_normalization_options (VALIDATE marks the call-based translation)
+    ("ic/_truncated_fourier_series.py", "RandomTruncatedFourierSeries", "__init__", "tfs_raises", "(offset_zero std_one max_one : bool)",
+     {"VALIDATE": True, "offset_range": ("offset_zero", "float0"), "std_one": ("std_one", "bool"), "max_one": ("max_one", "bool")}),
+    ("ic/_gaussian_random_field.py", "GaussianRandomField", "__init__", "grf_raises", "(zero_mean std_one max_one : bool)",
+     {"VALIDATE": True, "zero_mean": ("zero_mean", "bool"), "std_one": ("std_one", "bool"), "max_one": ("max_one", "bool")}),
+    ("ic/_diffused_noise.py", "DiffusedNoise", "__init__", "diffused_noise_raises", "(zero_mean std_one max_one : bool)",
+     {"VALIDATE": True, "zero_mean": ("zero_mean", "bool"), "std_one": ("std_one", "bool"), "max_one": ("max_one", "bool")}),
 ]
+
+
+def guard_via_validate(func, env, helpers):
+    """constructor whose only rejection is the call validate_normalization_options(zero_mean=..., std_one=..., max_one=...):
+    the guard is ic_options_raise applied to the translated keyword values (locals assigned before the call are tracked)"""
+    g = G(env, helpers)
+    out, terms = [], []
+    for st in strip_doc(func.body):
+        if isinstance(st, ast.Expr) and isinstance(st.value, ast.Call) and ast.unparse(st.value.func) == "validate_normalization_options":
+            c = st.value
+            if c.args or sorted(k.arg for k in c.keywords) != ["max_one", "std_one", "zero_mean"]:
+                raise TranslationError("validate_normalization_options call " + ast.unparse(c))
+            kw = {k.arg: g.b(k.value) for k in c.keywords}
+            terms.append(f"(ic_options_raise {kw['zero_mean']} {kw['std_one']} {kw['max_one']})")
+            continue
+        if g.walk([st], [], out):
+            break
+    if out:
+        raise TranslationError(func.name + ": direct raise next to the validation call")
+    if len(terms) != 1:
+        raise TranslationError(func.name + f": {len(terms)} validation calls")
+    return terms[0]
 
 
 def translate_stack_sub(tree):
@@ -312,7 +354,10 @@ def generate():
             body = translate_stack_sub(tree)
         else:
             f = find_func(find_class(tree, cls).body if cls else tree.body, fn)
-            body = guard_of(f, env, helpers)
+            if env.get("VALIDATE"):
+                body = guard_via_validate(f, {k: v for k, v in env.items() if k != "VALIDATE"}, helpers)
+            else:
+                body = guard_of(f, env, helpers)
         parts.append(f"(* {file}: {cls + '.' if cls else ''}{fn} *)\nDefinition {gname} {params} : bool :=\n  {body}.")
     return "\n".join(parts) + "\n"
 
